@@ -9,3 +9,9 @@ import "testing"
 // connection can end, instead of the TopicManager-level model of c14_test.go; the check itself
 // lives in shared/mqttrig/vfmqresidue_test.go (shared with C16).
 func TestVerifC14BrokerResidue(t *testing.T) { vfMqResidueCheck(t, "C14") }
+
+// TestVerifC14SessionResume: the same check restricted to SUBSCRIBE lists, UNSUBSCRIBE lists that
+// mix held and never-subscribed filters in every order, client-side disconnects and reconnects
+// (three in four with cleanSession=false): what a resumed session routes must be what the client
+// still holds, i.e. an unsubscribed filter stays gone across DISCONNECT + CONNECT.
+func TestVerifC14SessionResume(t *testing.T) { vfMqResidueCheckProfile(t, "C14", "resume") }
